@@ -109,8 +109,12 @@ def write_evidence(ctx: Ctx, level: str):
         violations=len(ctx.violations),
         known_findings_hit=sorted(ctx.known_hits), notes=ctx.notes,
     )
-    os.makedirs(os.path.join(VERIF, "evidence"), exist_ok=True)
-    with open(os.path.join(VERIF, "evidence", f"{ctx.pid}.json"), "w") as f:
+    # runs against a scratch copy of the repository (seeded changes: HS_REPO set) must not overwrite the
+    # evidence of /repo itself
+    evdir = os.environ.get("VERIF_EVIDENCE_DIR") or (os.path.join(VERIF, "evidence") if os.environ.get("HS_REPO", "/repo") == "/repo"
+                                                      else os.path.join(VERIF, "build", "evidence_scratch"))
+    os.makedirs(evdir, exist_ok=True)
+    with open(os.path.join(evdir, f"{ctx.pid}.json"), "w") as f:
         json.dump(ev, f, indent=1, default=str)
 
 
